@@ -548,3 +548,7 @@ package k8s
 //@     exists k int :: {np.Spec.Ingress[k]} 0 <= k && k < len(np.Spec.Ingress) && ingressRulePts(np, k, src, dst, q, n)
 //@ fun egressPolicyPts(np *NetworkPolicy, dst Peer, q string, n int) bool =
 //@     exists k int :: {np.Spec.Egress[k]} 0 <= k && k < len(np.Spec.Egress) && egressRulePts(np, k, dst, q, n)
+
+//@ func (*Pod).IsPodRepresentative
+//@   requires pod != nil
+//@   ensures [C09,C16] def: res == (pod.FakePod && pod.Name == "representative-pod")
